@@ -111,6 +111,12 @@ func genBV2Corpus(r *Rng, n int, w *bufio.Writer) {
 				{Asset: 0, Value: 7, Blind: true, BlinderIdx: 2}, {Asset: 2, Value: 3, Blind: true, BlinderIdx: 3}, {Asset: 0, Value: 100, Fee: true}},
 			Parties: []bvParty{{Ctor: 0, Own: []uint32{2}, Outs: []uint32{2}}, {Ctor: 0, Own: []uint32{0}, Outs: []uint32{0}},
 				{Ctor: 0, Own: []uint32{3}, Outs: []uint32{3}}, {Ctor: 0, Own: []uint32{1}, Outs: []uint32{1}}}},
+		// the last of two parties is refused once (only one of its two outputs), then blinds correctly
+		&bvShape{Seed: 20,
+			Ins: []bvIn{{Conf: true, Asset: 0, Value: 1000}, {Conf: true, Asset: 1, Value: 50}},
+			Outs: []bvOut{{Asset: 0, Value: 900, Blind: true}, {Asset: 1, Value: 20, Blind: true, BlinderIdx: 1},
+				{Asset: 1, Value: 30, Blind: true, BlinderIdx: 1}, {Asset: 0, Value: 100, Fee: true}},
+			Parties: []bvParty{{Ctor: 0, Own: []uint32{0}, Outs: []uint32{0}}, {Ctor: 0, Own: []uint32{1}, Outs: []uint32{1, 2}, Fail: []uint32{1}}}},
 	}
 	bvGenParallel(len(shapes), func(i int) string { return bvV2CaseLine(shapes[i]) }, w)
 }
@@ -142,4 +148,19 @@ func genBV0Corpus(r *Rng, n int, w *bufio.Writer) {
 			Sel:  []int{1}},
 	}
 	bvGenParallel(len(shapes), func(i int) string { return bvV0CaseLine(shapes[i]) }, w)
+}
+
+// history corpus (corpus/bvh.txt, `impl gen bvhcorpus 0 0`): one generator object, two packets spending
+// different confidential coins at input index 0
+func init() { gens["bvhcorpus"] = genBVHCorpus }
+
+func genBVHCorpus(r *Rng, n int, w *bufio.Writer) {
+	step := func(seed uint64, v uint64) *bvShape {
+		return &bvShape{Seed: seed,
+			Ins:     []bvIn{{Conf: true, Asset: 0, Value: v}},
+			Outs:    []bvOut{{Asset: 0, Value: v - 100, Blind: true}, {Asset: 0, Value: 100, Fee: true}},
+			Parties: []bvParty{{Ctor: 1, Own: []uint32{0}, Outs: []uint32{0}}}}
+	}
+	hists := [][]*bvShape{{step(41, 1000), step(42, 777)}, {step(43, 5000), step(44, 5000), step(45, 123456)}}
+	bvGenParallel(len(hists), func(i int) string { return bvHistLine(hists[i]) }, w)
 }
